@@ -10,6 +10,13 @@
 //!   html      {"bytes": hex, "context": str}                                           Tokenizer on arbitrary bytes
 //!   request   {"str": str, "json": any, "config"}                                      Request::from_str / serde / from_config / rebuild
 //!   log       {"request_json", "headers": [[n, v]], "client_ip", "proxy", "time", "legacy": any}   api/log.rs
+//!   api_misc  {"uri","host","scheme","method","headers":[[n,v]],"ip","action_json","dates":[..],"times":[..],"weekdays":[..],"cidrs":[..],"strs":[..]}
+//!             the wasm_api.rs surface re-enacted with the public API it wraps (wasm32 cannot be built here) and the public
+//!             functions no other harness reaches directly: Request struct literal + PathAndQueryWithSkipped::from_config,
+//!             add_header, Hash, set_remote_ip, header_values, serialize -> deserialize -> serialize (fixpoint); Action from an
+//!             arbitrary string + every wrapper method; Header::create_header_map; Buffer::from_string; UnitTrace's mutators;
+//!             StatusCodeUpdate / LogOverride through serde; RouteTime / RouteDateTime / RouteWeekday / RouteIp directly;
+//!             Router::from_arc_config / insert_route / get_route_by_id; SupportedEncoding::new_hash_set
 //!   transform {"kind", "options", "s"}                                                  every marker transformer through api::Transformer
 //!   slice     {"s": hex, "from": n, "to": n|null}         Slice::transform — compared with the Lean model (obs {"out": hex})
 //!   ffi_null  {"fn": name, "nulls": [bool]}               one extern "C" function under one null pattern of its nullable
@@ -377,6 +384,35 @@ fn mutated(rng: &mut Prng, mut v: Value) -> Value {
     v
 }
 
+/// hand-parsed header values (api/log.rs: `Forwarded`, `X-Forwarded-For`): grammar pieces glued at random, with brackets,
+/// quotes, ports, obfuscated identifiers, empty items, stray separators and multi-byte characters
+fn forwarded_value(rng: &mut Prng) -> String {
+    const ADDR: &[&str] = &["10.0.0.1", "192.168.0.1:8080", "[::1]", "[::1]:443", "::1", "[2001:db8::1", "2001:db8::1]", "_hidden", "unknown", "é", "10.0.0.256", "1.2.3.4:99999", "[]", "", " ", "\u{0}", "1.2.3.4\t", "٣.٣.٣.٣", "0x7f.1", "127.1"];
+    const KEYS: &[&str] = &["for", "For", "FOR", "by", "host", "proto", "fo", "for ", " for", "", "é", "for=for"];
+    const SEPS: &[&str] = &[", ", ",", ";", "; ", " ", ",,", ";;", ";,", ""];
+    let n = rng.below(5);
+    let mut out = String::new();
+    for i in 0..n {
+        if i > 0 {
+            out.push_str(*rng.pick(SEPS));
+        }
+        let a = *rng.pick(ADDR);
+        match rng.below(7) {
+            0 => out.push_str(a),
+            1 => out.push_str(&format!("{}={}", rng.pick(KEYS), a)),
+            2 => out.push_str(&format!("{}=\"{}\"", rng.pick(KEYS), a)),
+            3 => out.push_str(&format!("{}=\"{}", rng.pick(KEYS), a)),
+            4 => out.push_str(&format!("{}={}\"", rng.pick(KEYS), a)),
+            5 => out.push_str(&format!("{}=\"\"{}\"\"=x", rng.pick(KEYS), a)),
+            _ => out.push_str(&format!("{} = {} ", rng.pick(KEYS), a)),
+        }
+    }
+    if rng.chance(1, 10) {
+        out.push_str(&"x,;=\"".repeat(rng.below(200)));
+    }
+    out
+}
+
 fn chunks(rng: &mut Prng, max: usize) -> Value {
     Value::Array((0..rng.below(4) + 1).map(|_| json!(hex(&pick_bytes(rng, max)))).collect())
 }
@@ -460,7 +496,7 @@ fn gen(args: &Args, emit: &mut dyn FnMut(Value)) {
         }
     }
     for i in 0..args.n {
-        let case = match i % 16 {
+        let case = match i % 18 {
             0..=4 => {
                 let nr = rng.below(4) + 1;
                 let clean: Vec<Value> = (0..nr).map(|k| gen_rule(&mut rng, &format!("r{k}"))).collect();
@@ -520,15 +556,25 @@ fn gen(args: &Args, emit: &mut dyn FnMut(Value)) {
                 "path_and_query_v2": opt_val(&mut rng, 1, 2, |r| json!(pick_str(r))), "host": "example.org", "scheme": "https", "method": "GET",
                 "headers": [{"name": "X", "value": "y"}], "remote_addr": *rng.pick(&["10.0.0.1", "::1", "bad"]), "created_at": *rng.pick(DATES), "sampling_override": null}); mutated(&mut rng, j) }),
                 "config": gen_config(&mut rng)}),
-            13 => json!({"family": "log", "request": gen_request(&mut rng),
-                "headers": Value::Array((0..rng.below(4)).map(|_| match rng.below(4) {
-                    0 => json!(["Forwarded", *rng.pick(&["for=10.0.0.1", "for=\"[::1]:80\";by=x, for=bad", "for", "=", ";;,,", "for=\"", "FOR = 1.2.3.4 "])]),
-                    1 => json!(["X-Forwarded-For", *rng.pick(&["10.0.0.1, bad, ::1", ",", "", " 10.0.0.1:80"])]),
-                    _ => json!([*rng.pick(&["Location", "content-type", "User-Agent", "Referer"]), pick_str(&mut rng)]),
+            16 | 17 => {
+                let strs: Vec<String> = (0..4).map(|_| pick_str(&mut rng)).collect();
+                json!({"family": "api_misc", "uri": pick_str(&mut rng), "host": pick_str(&mut rng), "scheme": *rng.pick(&["http", "https", "", "é"]), "method": *rng.pick(METHODS),
+                    "headers": Value::Array((0..rng.below(5)).map(|_| json!([*rng.pick(&["Host", "X-Forwarded-For", "Forwarded", "x-forwarded-host", "X-Forwarded-Proto", "X-Forwarded-By", "é", "", "a b", "Set-Cookie", "set-cookie"]), forwarded_value(&mut rng)])).collect()),
+                    "ip": *rng.pick(&["10.1.2.3", "::1", "[::1]:80", "10.0.0.1:99999", "bad", ""]),
+                    "action_json": match rng.below(4) { 0 => ACTION_JSON.to_string(), 1 => String::from_utf8_lossy(&pick_bytes(&mut rng, 60)).to_string(), 2 => "{}".to_string(), _ => { let a: Value = serde_json::from_str(ACTION_JSON).unwrap(); mutated(&mut rng, a).to_string() } },
+                    "dates": [*rng.pick(DATES), *rng.pick(DATES)], "times": [*rng.pick(TIMES), *rng.pick(TIMES)],
+                    "weekdays": Value::Array((0..rng.below(4)).map(|_| json!(*rng.pick(WEEKDAYS))).collect()),
+                    "cidrs": [*rng.pick(IPS), *rng.pick(IPS)], "strs": strs, "code": *rng.pick(&[0u32, 200, 301, 404, 65535])})
+            }
+            13 | 15 => json!({"family": "log", "request": gen_request(&mut rng),
+                "headers": Value::Array((0..rng.below(5)).map(|_| match rng.below(5) {
+                    0 | 1 => json!([*rng.pick(&["Forwarded", "forwarded", "FORWARDED"]), forwarded_value(&mut rng)]),
+                    2 | 3 => json!([*rng.pick(&["X-Forwarded-For", "x-forwarded-for"]), forwarded_value(&mut rng)]),
+                    _ => json!([*rng.pick(&["Location", "content-type", "User-Agent", "Referer", "LOCATION", "İ"]), pick_str(&mut rng)]),
                 }).collect()),
                 "client_ip": *rng.pick(&["10.0.0.1", "[::1]:80", "bad", "", "10.0.0.1\u{0}"]), "proxy": pick_str(&mut rng), "time": *rng.pick(&[0u64, 1, u64::MAX, 1700000000000]),
                 "legacy": ({ let l = json!({"status_code": 200, "host": "h", "method": "GET", "request_uri": "/", "user_agent": null, "referer": null, "scheme": "http", "use_json": true, "target": "/t", "rule_id": "r"}); mutated(&mut rng, l) })}),
-            14 => json!({"family": "transform", "kind": *rng.pick(TRANSFORMERS), "options": {"from": *rng.pick(NUMS), "to": *rng.pick(NUMS), "something": pick_str(&mut rng), "with": pick_str(&mut rng)}, "s": pick_str(&mut rng)}),
+            14 if i % 36 < 18 => json!({"family": "transform", "kind": *rng.pick(TRANSFORMERS), "options": {"from": *rng.pick(NUMS), "to": *rng.pick(NUMS), "something": pick_str(&mut rng), "with": pick_str(&mut rng)}, "s": pick_str(&mut rng)}),
             _ => {
                 if rng.chance(1, 2) {
                     let s = pick_str(&mut rng);
@@ -832,6 +878,132 @@ fn run_log(case: &Value) -> Obs {
         }
     }
     Obs::new(ok()).tag(format!("log:legacy-{legacy}"))
+}
+
+fn run_api_misc(case: &Value) -> Obs {
+    use redirectionio::action::{StatusCodeUpdate, UnitTrace};
+    use redirectionio::router::{IntoRoute, RouteDateTime, RouteIp, RouteTime, RouteWeekday};
+    use std::hash::{Hash, Hasher};
+    let g = |k: &str| s(case, k).unwrap_or_default();
+    let config = RouterConfig::default();
+    let uri = g("uri");
+    // wasm Request::new + add_header + get_hash + serialize
+    let mut request = Request {
+        headers: Vec::new(),
+        host: Some(g("host")),
+        method: Some(g("method")),
+        scheme: Some(g("scheme")),
+        path_and_query_skipped: PathAndQueryWithSkipped::from_config(&config, uri.as_str()),
+        path_and_query: Some(uri.clone()),
+        remote_addr: None,
+        created_at: Some(chrono::Utc::now()),
+        sampling_override: None,
+    };
+    let headers = header_pairs(case, "headers");
+    for h in &headers {
+        request.add_header(h.name.clone(), h.value.clone(), false);
+    }
+    if let Ok(ip) = g("ip").parse::<std::net::IpAddr>() {
+        request.set_remote_ip(ip);
+    }
+    let mut hasher = std::collections::hash_map::DefaultHasher::new();
+    request.hash(&mut hasher);
+    let _ = hasher.finish();
+    for h in &headers {
+        let _ = (request.header_values(&h.name), request.header_value(&h.name), request.header_exists(&h.name));
+    }
+    let mut o = Obs::new(ok());
+    // serialize -> deserialize -> serialize is a fixpoint
+    if let Ok(js) = serde_json::to_string(&request) {
+        match serde_json::from_str::<Request>(&js) {
+            Ok(r2) => {
+                if serde_json::to_string(&r2).ok().as_deref() != Some(js.as_str()) {
+                    o = o.fail("Request: serialize . deserialize . serialize differs from serialize", "request-json-fixpoint");
+                }
+            }
+            Err(e) => o = o.fail(format!("Request: its own serialisation is rejected: {e}"), "request-json-fixpoint"),
+        }
+    }
+    // wasm Action::new + every wrapper method + create_log_in_json
+    let code = case.get("code").and_then(|x| x.as_u64()).unwrap_or(200) as u16;
+    let mut action: Option<Action> = serde_json::from_str(&g("action_json")).ok();
+    let filtered = match action.as_mut() {
+        Some(a) => {
+            let _ = a.get_status_code(code, None);
+            let hs = a.filter_headers(headers.clone(), code, true, None);
+            if let Some(mut f) = a.create_filter_body(code, &hs) {
+                let _ = f.filter(uri.clone().into_bytes(), None);
+                let _ = f.end(None);
+            }
+            let _ = a.should_log_request(true, code, None);
+            if let Ok(js) = serde_json::to_string(&*a) {
+                match serde_json::from_str::<Action>(&js) {
+                    Ok(a2) => {
+                        if serde_json::to_string(&a2).ok().as_deref() != Some(js.as_str()) {
+                            o = o.fail("Action: serialize . deserialize . serialize differs from serialize", "action-json-fixpoint");
+                        }
+                    }
+                    Err(e) => o = o.fail(format!("Action: its own serialisation is rejected: {e}"), "action-json-fixpoint"),
+                }
+            }
+            hs
+        }
+        None => headers.clone(),
+    };
+    let log = Log::from_proxy(&request, code, &filtered, action.as_ref(), &g("host"), u64::MAX as u128, &g("ip"));
+    let _ = serde_json::to_string(&log);
+    // public functions no other harness calls directly
+    let _ = Header::create_header_map(headers.clone());
+    let _ = redirectionio::filter::Buffer::from_string(uri.clone()).into_vec();
+    let _ = redirectionio::filter::SupportedEncoding::new_hash_set();
+    let strs: Vec<String> = arr(case, "strs").iter().filter_map(|x| x.as_str().map(|s| s.to_string())).collect();
+    let mut ut = UnitTrace::default();
+    for (i, a) in strs.iter().enumerate() {
+        match i % 4 {
+            0 => ut.add_unit_id(a.clone()),
+            1 => ut.add_unit_id_with_target(&uri, a),
+            2 => ut.override_unit_id_with_target(&uri, a),
+            _ => ut.add_value_computed_by_unit(a, &uri),
+        }
+    }
+    ut.squash_with_target_unit_traces();
+    let _ = (ut.diff(strs.clone()), ut.get_rule_ids_applied(), ut.get_unit_ids_applied(), ut.rule_ids_contains(&uri), serde_json::to_string(&ut));
+    if let Ok(scu) = serde_json::from_value::<StatusCodeUpdate>(json!({"status_code": code, "on_response_status_codes": [code, 0], "exclude_response_status_codes": code % 2 == 0,
+        "fallback_status_code": 65535, "rule_id": uri, "fallback_rule_id": null, "unit_id": null, "target_hash": null})) {
+        let _ = (scu.get_status_code(0), scu.get_status_code(code), scu.get_status_code(65535));
+    }
+    let dates: Vec<Option<String>> = arr(case, "dates").iter().map(|x| x.as_str().map(|s| s.to_string())).collect();
+    let times: Vec<Option<String>> = arr(case, "times").iter().map(|x| x.as_str().map(|s| s.to_string())).collect();
+    let weekdays: Vec<String> = arr(case, "weekdays").iter().filter_map(|x| x.as_str().map(|s| s.to_string())).collect();
+    let instants: Vec<chrono::DateTime<chrono::Utc>> = DATES.iter().filter_map(|d| d.parse().ok()).collect();
+    if dates.len() == 2 && times.len() == 2 {
+        let (rd, rt, rw) = (RouteDateTime::from_range(&dates[0], &dates[1]), RouteTime::from_range(&times[0], &times[1]), RouteWeekday::from_weekdays(&weekdays));
+        for t in &instants {
+            let _ = (rd.match_datetime(t), rt.match_datetime(t), rw.as_ref().map(|w| w.match_datetime(t)));
+        }
+        let _ = (rd.to_string(), rt.to_string(), rw.map(|w| w.to_string()));
+    }
+    for c in arr(case, "cidrs") {
+        if let Some(Ok(cidr)) = c.as_str().map(|c| c.parse::<cidr::AnyIpCidr>()) {
+            for ip in ["10.1.2.3", "::1", "255.255.255.255"] {
+                let ip: std::net::IpAddr = ip.parse().unwrap();
+                let _ = (RouteIp::InRange(cidr).match_ip(&ip), RouteIp::NotInRange(cidr).match_ip(&ip));
+            }
+        }
+    }
+    // Router::from_arc_config / insert_route / get_route_by_id
+    let mut router = Router::<Rule>::from_arc_config(Arc::new(config.clone()));
+    if let Ok(rule) = serde_json::from_str::<Rule>(RT_RULE) {
+        let mut rule = rule;
+        rule.source.path = uri.clone();
+        rule.id = g("host");
+        router.insert_route(rule.clone().into_route(&config));
+        router.insert_route(rule.into_route(&config));
+        let _ = (router.get_route_by_id(&g("host")).map(|r| r.priority()), router.get_route_by_id(&uri).is_some(), router.len(), router.is_empty());
+        let _ = router.match_request(&request);
+        let _ = router.remove(&g("host"));
+    }
+    o.tag(format!("api_misc:action-{}", action.is_some()))
 }
 
 fn run_transform(case: &Value) -> Obs {
@@ -1255,6 +1427,7 @@ fn run(case: &Value) -> Obs {
         "request" => run_request(case),
         "log" => run_log(case),
         "transform" => run_transform(case),
+        "api_misc" => run_api_misc(case),
         "slice" => run_slice(case),
         "ffi_null" => run_ffi_null(case),
         "ffi_str" => run_ffi_str(case),
